@@ -87,7 +87,7 @@ _SYSC_RULE = (" | sysc: histories of 5-10 ops {request (GET/HEAD/POST; Accept-En
               "over two resources on a cache-enabled rule (force_revalidate 0/20) against the real server + disk cache + scripted origin with the injected clock; every origin body is unique, so the oracle knows which origin answer each client body is; "
               "oracles on the implementation: C05 a filling/passing response mirrors the current origin answer, a hit has the status/framing of the answer it replays; C07 hit headers = stored response's headers up to the documented differences; "
               "C08 served without contact only while fresh (Spec.C08.isFresh) and, conversely, not contacted while the key's entry is fresh; C10 a hit never replays an exchange that was uncacheable (directive, Authorization, method)")
-for _pid, _title in (("C05", "Every request gets one complete, well-formed response mirroring the origin"), ("C07", "A cache hit replays exactly the response that was stored"),
+for _pid, _title in (("C05", "Every request gets one complete, well-formed response mirroring the origin"), ("C07", "A cache hit replays exactly the response that was stored"), ("C09", "Revalidation and conditional requests never misreport content"),
                      ("C08", "Stored responses are served only while fresh, and then without origin traffic"), ("C10", "Responses that must not be cached are never stored or shared")):
     p = _ensure(_pid, _title)
     p["streams"] += [S("sysc", 6000, 80000)]
